@@ -246,16 +246,19 @@ def grid_cases(tier):
             # quick: each triple goes to every non-aliased form, and to one aliased form in rotation
             if ".al" in v and tier == "quick" and (vi + idx) % 6 != 0: continue
             if m.bit_length() > 64 and tier == "quick" and (vi + idx) % 3 != 0: continue
+            if tier == "quick" and c in ("first", "num0-fail", "num0-ok") and m > 1000 and (vi + idx) % 3 != 1: continue
             full = [None, m, k] if op != "qf" else [None, m]
             if op == "qf" and k != isqrt(m): continue
             nflags = nargs - len(full)
             for ri, x in enumerate(reps):
-                if tier == "quick" and c == "first" and ri not in (0, 3) and k not in (1, isqrt(m), m): continue
+                # quick: the five representatives rotate over (triple, form); all five for the tiny moduli and in the thorough tier
+                if tier == "quick" and m > 1000 and ri != (vi + idx) % 5: continue
+                if tier == "quick" and m <= 1000 and c == "first" and ri not in (0, 2, 3): continue
                 for bits in range(1 << nflags):
                     ia = [x] + full[1:] + [(bits >> j) & 1 for j in range(nflags)]
                     cases.append((v, op, ia, mp(list(ia)), None, "grid-" + c, "grid"))
         for kk in (m + 1, 2 * m):
-            for x in (f, f + m, f - m, kk, kk + 1, kk - 1):
+            for x in ((f, kk + 1, f - m) if tier == "quick" else (f, f + m, f - m, kk, kk + 1, kk - 1)):
                 for fr in (0, 1):
                     ia = [x, m, kk, fr, 1]
                     cases.append(("ratrecon.static", "ratrecon", ia, ia[:4], None, "grid-k>m", "grid"))
@@ -263,14 +266,19 @@ def grid_cases(tier):
     for m in GRID_MODULI:
         s = isqrt(m)
         base = sorted(set(x % m for x in (0, 1, 2, s, s + 1, m - 1, m // 2, m // 3, m // 2 + 1, 3 * (m // 4), 51, 75, 246)))
-        for f in base:
-            for x in (f - m, f, f + m):
-                for v in vs:
+        bounds = ((s, s), (max(1, s // 2), max(1, m // max(1, s // 2))), (1, m), (m, 1), (s + 1, max(1, s - 1)))
+        for fi, f in enumerate(base):
+            for xi, x in enumerate((f - m, f, f + m)):
+                for vi, v in enumerate(vs):
                     op, nargs, mp, _ = VARIANTS[v]
                     if op == "rr4":
+                        if tier == "quick" and ".al" in v and (vi + fi + xi) % 4 != 0: continue
                         cases.append((v, op, [x, m], [x, m], None, "grid-rr4", "grid"))
-                    elif op == "rr6" and (tier != "quick" or x == f or ".al" not in v):
-                        for ab, bb in ((s, s), (max(1, s // 2), max(1, m // max(1, s // 2))), (1, m), (m, 1), (s + 1, max(1, s - 1))):
+                    elif op == "rr6":
+                        for bi, (ab, bb) in enumerate(bounds):
+                            # quick: the aliased forms and the bounds rotate
+                            if tier == "quick" and ".al" in v and (vi + fi + xi + bi) % 16 != 0: continue
+                            if tier == "quick" and ".al" not in v and (fi + xi + bi) % 2 != 0: continue
                             cases.append((v, op, [x, m, ab, bb], [x, m, ab, bb], None, "grid-rr6", "grid"))
     return cases
 
@@ -285,9 +293,9 @@ def envelope_cases(tier):
         s = isqrt(m); e = s // 4
         if e < 2: continue
         pairs = []
-        for a0 in (e, e - 1, 1, 0, e + 1):
-            for b0 in (e, e - 1, 1, e + 1):
-                b = b0
+        for a0 in ((e, 0, e + 1) if tier == "quick" else (e, e - 1, 1, 0, e + 1)):
+            for b0 in ((e, 1, e + 1) if tier == "quick" else (e, e - 1, 1, e + 1)):
+                b = b0 if a0 else 1
                 while b > 1 and (math.gcd(b, m) != 1 or math.gcd(a0, b) != 1): b -= 1
                 if math.gcd(b, m) != 1 or math.gcd(a0, b) != 1: continue
                 for a in ((a0, -a0) if a0 else (0,)):
@@ -298,6 +306,7 @@ def envelope_cases(tier):
                 for vi, v in enumerate(vs):
                     op, nargs, mp, _ = VARIANTS[v]
                     if op == "rr6": continue
+                    if tier == "quick" and ri != (vi + pi) % 3: continue       # the representatives rotate over (pair, form)
                     if tier == "quick" and ".al" in v and (vi + pi + ri) % 5 != 0: continue
                     if tier == "quick" and m.bit_length() > 64 and (vi + pi + ri) % 3 != 0: continue
                     full = [x, m] if op in ("rr4", "qf") else [x, m, s]
@@ -792,7 +801,8 @@ def main(tier, replay=None):
             A, B = src
             Bi = pinvmod(B, M, p)
             P0 = pdivmod(pmul(A, Bi, p), M, p)[1] if Bi is not None else ptrim(A)
-            frac0 = src if Bi is not None and len(pgcd(A, B, p)) == 1 else None
+            # the uniqueness range: deg A <= dk, deg B < deg M - dk, gcd(A,B) = gcd(B,M) = 1
+            frac0 = src if (Bi is not None and len(pgcd(A, B, p)) == 1 and pdeg(A) <= dk and pdeg(B) < pdeg(M) - dk) else None
         else:
             P0, frac0 = ptrim(src), None
         reps = [("reduced", P0), ("deg=degM", padd(P0, pmul(M, [3 % p or 1], p), p)), ("deg>degM", padd(P0, pmul(M, [7 % p, 0, 1], p), p)),
